@@ -7,7 +7,7 @@ import oracle
 from common import ModelRun, model_classes, cmat, Blocks, crash_result
 from drive import Result
 
-RULE = ("Hypothesis generates heterogeneous lattices (1-3 orbitals, 1-3 spins per site, N<=6 quick / 7 thorough; one case in sixty a d-/f-like "
+RULE = ("Hypothesis generates heterogeneous lattices (1-3 orbitals, 1-3 spins per site, N<=6 quick / 7 thorough; one case in 120 a d-/f-like "
         "shell of 4-8 orbitals, up to 10 modes) and 1-5 pieces: every "
         "LatticePresets overload and every Lattice::Term::Presets factory inside its documented domain (same-site and two-site variants; zero, "
         "negative and, in the complex build, complex amplitudes) and raw 2/4/6-operator terms in arbitrary operator order.  With symmetries "
@@ -160,7 +160,7 @@ def strategy_(draw, tier):
     if su2:
         sites = draw(gen.sites_st(max_modes=mm, max_sites=3, spins=(2,), orbitals=(1, 2, 3)))
         terms = draw(gen.terms_st(sites, cplx, min_pieces=1, max_pieces=4, preset_share=1.0, presets=SU2_PRESETS))
-    elif draw(st.integers(0, 59)) == 0:
+    elif draw(st.integers(0, 119)) == 0:
         # wide shells (d- and f-like sites): orbital indices 3..7, up to 10 modes (rare: a 1024 x 1024 matrix per case)
         sites = draw(gen.sites_st(max_modes=10, max_sites=2, spins=(2, 1), orbitals=(5, 4, 6, 7, 8)))
         terms = draw(gen.terms_st(sites, cplx, min_pieces=1, max_pieces=4, preset_share=0.6))
